@@ -407,7 +407,8 @@ func c19MakeReceipts(rng *rand.Rand, no uint64) []*types.Receipt {
 		r.TxHash = make([]byte, 32)
 		rng.Read(r.TxHash)
 		r.FeeUsed = big.NewInt(rng.Int63()).Bytes()
-		r.GasUsed = 1 + uint64(rng.Int63()) // never zero: tells the two stored formats apart when read back
+		r.GasUsed = 2 + uint64(rng.Intn(200)) // never zero: tells the two stored formats apart when read back; small, so that a decoder
+		// reading the wrong format does not take it for a huge counter
 		r.FeeDelegation = true
 		for e := rng.Intn(3); e > 0; e-- {
 			ev := &types.Event{ContractAddress: addr, EventName: fmt.Sprintf("e%d", e), JsonArgs: fmt.Sprintf("[%d]", rng.Intn(99)), EventIdx: int32(e), TxHash: r.TxHash}
